@@ -24,6 +24,22 @@ def used(name):
 # ------------------------------------------------------------------------------------------------
 # generic iteration (loops / comprehensions over symbolic ranges)
 
+
+PRODUCT_FACTORS = {}
+
+
+def _mul_factors(t):
+    """multiplicative factors of an integer term: M*M*2 -> [M, M, 2] (z3 flattens / reorders products; powers are expanded)"""
+    if z3.is_app(t) and t.decl().kind() == z3.Z3_OP_MUL:
+        out = []
+        for c in t.children():
+            out += _mul_factors(c)
+        return out
+    if z3.is_app(t) and t.decl().kind() == z3.Z3_OP_POWER and z3.is_int_value(t.arg(1)):
+        return _mul_factors(t.arg(0)) * t.arg(1).as_long()
+    return [t]
+
+
 class SRange:
     """range(n) with symbolic n: iterating yields ONE generic representative i with 0 <= i < n.
     Sound only for loop bodies without loop-carried state (checked per use site by the contract)."""
@@ -352,7 +368,26 @@ class NumpyModel(types.ModuleType):
         return arr.full(shape, val)
 
     def eye(self, n, dtype=None):
-        return lift(_np.eye(builtins.int(n)))
+        if not self._sym(n):
+            return lift(_np.eye(builtins.int(n)))
+        # symbolic size: n is taken apart into its multiplicative factors (M*M*2 -> [M, M, 2]); both axes get that product
+        # structure (own atoms per axis), so that a later reshape to the factor extents regroups instead of dividing, and
+        # eye[r, c] = [r == c] is the conjunction of the component equalities (mixed-radix injectivity: lean/Rules.lean)
+        used("eye (identity matrix; symbolic size as a product of its factors)")
+        rec = PRODUCT_FACTORS.get(zi(n).get_id())
+        fs = rec[1] if rec is not None and rec[0].eq(zi(n)) else sorted(_mul_factors(zi(n)), key=lambda f: z3.is_int_value(f))
+        rows = [Atom(mk(f), f"eyeR{i}") for i, f in enumerate(fs)]
+        cols = [Atom(mk(f), f"eyeC{i}") for i, f in enumerate(fs)]
+        rd, cd = arr.mkprod(rows), arr.mkprod(cols)
+
+        def elem(idx):
+            r, c = idx
+            if isinstance(r, arr.Flat) or isinstance(c, arr.Flat):
+                return arr.t_cond(zi(arr.to_flat(rd, r)) == zi(arr.to_flat(cd, c)), 1)
+            rs = list(r) if isinstance(rd, arr.Prod) else [r]
+            cs = list(c) if isinstance(cd, arr.Prod) else [c]
+            return arr.t_cond(z3.And([zi(arr.to_flat(a, x)) == zi(arr.to_flat(b, y)) for a, x, b, y in zip(rows, rs, cols, cs)]), 1)
+        return SArray([rd, cd], elem)
 
     def arange(self, *a, dtype=None):
         if self._real is not None and not self._sym(*a):
@@ -595,6 +630,9 @@ class _Ufunc:
         r = 1 if self.op == "mul" else 0
         for x in xs:
             r = r * x if self.op == "mul" else r + x
+        if self.op == "mul" and isinstance(r, SInt):
+            # remember the factors in the order given (z3 reorders products): eye(size).reshape((size,) + shape) regroups them
+            PRODUCT_FACTORS[r.e.get_id()] = (r.e, [zi(x) for x in xs if concrete_int(x) != 1])
         return r
 
     def __call__(self, a, b):
@@ -857,8 +895,32 @@ def _unslice(bdim, cases, per_case, out_axis):
             return tuple(k for i in ix for k in key_of(i))
         return ()
 
+    def cdig(x):
+        if isinstance(x, SInt):
+            x = x.e
+        if arr.is_z3(x):
+            x = z3.simplify(x)
+            return x.as_long() if z3.is_int_value(x) else None
+        return builtins.int(x)
+
+    def full_key(ix, want=None):
+        # branch choices of concatenated axes + the concrete digits of enumerated small atoms (fresh_cases with ENUM_SMALL):
+        # two cases that differ only in an enumerated digit are different cases
+        bk = key_of(ix)
+        ds = [cdig(d) for d in _digits(bdim, ix, [])]
+        if want is None:
+            return bk, tuple(ds)
+        pos = enum_pos.get(bk, ())
+        if any(ds[i] is None for i in pos):
+            raise OutOfReach("symbolic index into an enumerated digit of a vmapped axis")
+        return bk, tuple(ds[i] if i in pos else None for i in range(len(ds)))
+
+    enum_pos = {}
     for (bidx, hyps), r in zip(cases, per_case):
-        branch_of[key_of(bidx)] = (bidx, r)
+        bk, ds = full_key(bidx)
+        enum_pos.setdefault(bk, tuple(i for i, d in enumerate(ds) if d is not None))
+    for (bidx, hyps), r in zip(cases, per_case):
+        branch_of[full_key(bidx, True)] = (bidx, r)
 
     def elem(idx):
         bi = idx[out_axis]
@@ -870,7 +932,8 @@ def _unslice(bdim, cases, per_case, out_axis):
                 raise OutOfReach("flat index into a vmapped structured axis")
         if isinstance(bi, SInt):
             bi = bi.e
-        pb, r = branch_of[key_of(bi)]
+        fk = full_key(bi, True)
+        pb, r = branch_of[fk]
         # other cases may have differently-structured result dims; convert
         rest = [arr.conv_idx(d0, ix, d1) for d0, ix, d1 in zip(r0.dims, rest, r.dims)]
         # evaluate with the placeholders bound as hypotheses, then substitute
@@ -883,7 +946,7 @@ def _unslice(bdim, cases, per_case, out_axis):
         ds = [d for d, p in zip(_digits(bdim, bi, []), _digits(bdim, pb, [])) if arr.is_z3(p)]
         for p, d in zip(phs, ds):
             pairs.append((p, zi(d)))
-        hy = [h for (b2, hs) in cases if key_of(b2) == key_of(bi) for h in hs]
+        hy = [h for (b2, hs) in cases if full_key(b2, True) == fk for h in hs]
         with sym.scope(hy):
             t = r.elem(rest)
         return _subst(t, pairs)
